@@ -94,7 +94,6 @@ Fixpoint del_h (k : key) (l : list hstream) : list hstream :=
   end.
 
 Definition slot_free (slot : N) (l : list hstream) : bool := forallb (fun s => negb (N.eqb (fst (h_key s)) slot)) l.
-Definition id_free (id : N) (l : list hstream) : bool := forallb (fun s => negb (N.eqb (snd (h_key s)) id)) l.
 
 Definition set_streams (st : hstate) (l : list hstream) : hstate :=
   mkHS l (hs_fl st) (hs_codec st) (hs_cont st) (hs_cleared st) (hs_thr st).
@@ -215,9 +214,9 @@ Fixpoint do_items (st : hstate) (outs : list out) (its : list item) : outcome :=
 Definition step (st : hstate) (l : label) : outcome :=
   match l with
   | HNew k =>
-    if slot_free (fst k) (hs_streams st) && id_free (snd k) (hs_streams st)
+    if slot_free (fst k) (hs_streams st)
     then Ok (set_streams st (mkH k [] 0 0 0 0 :: hs_streams st)) []
-    else Stuck 9                                                  (* slab.insert gives a vacant slot; ids.insert asserts a new id *)
+    else Stuck 9              (* slab.insert gives a vacant slot (the stream id may repeat: an unlinked record keeps its slot) *)
   | HRemove k => remove st k
   | HSendData k sz =>
     match find_h k (hs_streams st) with
